@@ -352,6 +352,10 @@ const maxLenS = "4611686018427387904" // 2^62: assumed bound on string/slice len
 const preludeSMT = `
 (set-option :produce-models true)
 (set-logic ALL)
+(declare-sort Fuel 0)
+(declare-fun FS (Fuel) Fuel)
+(declare-const FZ Fuel)
+(define-fun FMAX () Fuel (FS (FS FZ)))
 (declare-sort Str 0)
 (declare-fun slen (Str) Int)
 (declare-fun sat (Str Int) Int)
